@@ -1,7 +1,8 @@
 (* C03 — prefix negation is honoured and means the operator-level negation.
    Pinned statements only. *)
 From GV.Model Require Import SEval.
-From GV.Proofs Require Import StatusProps EvalLaws CompareProps NegationProps.
+From GV.Proofs Require Import StatusProps EvalLaws CompareProps NegationProps TableProps.
+From GV.Generated Require Import EvalTables.
 
 (* `not X exists` == `X !exists`, likewise empty and the is_* tests: same status, same
    final state, for every query, all/some, every callee evaluator, every state *)
@@ -67,3 +68,15 @@ Theorem C03_not_rule : forall prog r dep negation custom s st recs s',
                  exists c, recs = [Rec c ch] /\ container_status c = Some st.
 Proof. exact named_clause_law. Qed.
 Print Assumptions C03_not_rule.
+
+(* which operators take the unary path (where the prefix negation is applied through inverse_operation) and which per-value
+   operation each of them dispatches to: the tables of the Rust source (values.rs is_unary, eval.rs unary_operation with its
+   is_type_fn! declarations), regenerated on every run, are the ones the model uses *)
+Theorem C03_unary_operators_are_the_source_tables : forall o,
+  is_unary o = existsb (String.eqb (op_name o)) src_unary_operators /\
+  unary_base o = option_map denote_unary (unary_kind_of o) /\
+  option_map kind_name (unary_kind_of o) = src_kind o /\
+  existsb (String.eqb (op_name o)) src_unary_unreachable = negb (is_unary o).
+Proof. exact (fun o => conj (is_unary_is_the_source_table o) (conj (unary_base_is_the_model_dispatch o)
+                        (conj (unary_dispatch_is_the_source_table o) (unary_unreachable_arm_is_the_binary_operators o)))). Qed.
+Print Assumptions C03_unary_operators_are_the_source_tables.
